@@ -7,11 +7,17 @@
   only for the entries the scan from `mp` can see: `mp`, the directories above it, and what lies below `mp` outside
   excluded directories) — and `toSEntries`, the abstraction to the specification's vocabulary
   (PtaSpec/ScanSem.lean: `survives`, `entryName`, `scanModules`).
+  Sub-directory scans: modules (`subscan_modules`), imports (`subscan_imports_spec`, `subscan_graph`) and the two
+  spellings of absolute imports (`parent_relative_spec`, `parent_relative_graph`, `parent_relative_equiv`), with the
+  vocabulary of Bridge/SubScan.lean (`portable`, `plain`, `parentRelative`) and the witnesses `subscan_ambiguity`,
+  `plain_needed` for the two side conditions. The module-object entry point is not modelled.
 -/
 import Bridge.Abs
 import Bridge.ScanTree
 import PtaProofs.Lemmas.ScanSpec
 import PtaProofs.Lemmas.ScanGraph
+import Bridge.SubScan
+import PtaProofs.Lemmas.SubScan
 namespace Pta.C04
 open Pta PtaSpec
 
@@ -178,6 +184,146 @@ theorem other_names_unchanged (name : Str) (internal : List Str)
 
 end subscan
 
+/-! ### sub-directory scans: imports
+
+  "Scanning a sub-directory as module_path gives the same modules and imports as scanning the whole root restricted to
+  that sub-tree (absolute imports written either fully qualified from the root directory's name or relative to
+  module_path's parent directory both resolve)."
+
+  The scan of `module_path` tries every absolute name `n` first as `prefix.n` (`_adjust_with_root_prefix`, `prefix` =
+  dotted path of `module_path`'s parent), the scan of the whole root has no prefix. The two agree on the statements
+  that are `portable` (Bridge/SubScan.lean): no absolute name the conversion looks up is, read relative to
+  `module_path`'s parent, a module of the sub-scan. Without it the statement is false (`subscan_ambiguity`: a
+  directory `proj/proj`). Relative imports need no hypothesis. What "restricted to that sub-tree" means for imports:
+  both ends at or below `module_path`'s dotted name — the ancestor packages of `module_path` are nodes of the sub-scan
+  graph but never ends of its import edges (`_get_internal_module_prefix` filters them), whereas the whole-root scan
+  has edges to them.
+
+  The module-object entry point (`get_evaluable_architecture_for_module_objects`, which takes `dirname(__file__)` of
+  the two module objects and delegates to the path entry point) is outside the model: nothing is stated about it.
+-/
+
+section subscanImports
+variable (mt : Str → Str → Bool) (base root : Str) (mp : List Str) (entries : List Entry) (o : ScanOptions)
+  (hwf0 : treeWFFor (exclOf mt o) base [] entries = true)
+  (hwf : treeWFFor (exclOf mt o) base mp entries = true) (hmp : mpOK entries mp = true) (hroot : compWF root = true)
+  (hclear : ∀ k, k < mp.length → exclOf mt o (pathStr base (mp.take k)) = false)
+  (hport : portable root (toSEntries (exclOf mt o) base entries) mp = true)
+include hwf0 hwf hmp hroot hclear hport
+
+/-- C04, sub-directory scans, specification level: when the whole-root scan has an answer, so has the scan of
+    `module_path`, and its edges are exactly the whole-root edges with both ends at or below `module_path`'s dotted
+    name. (A relative import reaching above the root fails both scans if its file lies below `module_path`; a failing
+    file elsewhere fails the whole-root scan only — `subscan_imports_none`.) -/
+theorem subscan_imports_spec (is0 : List (Name × Name))
+    (h0 : scanImports root (toSEntries (exclOf mt o) base entries) [] = some is0) :
+    ∃ is, scanImports root (toSEntries (exclOf mt o) base entries) mp = some is ∧
+      ∀ u v, (u, v) ∈ is ↔ (u, v) ∈ is0 ∧ (root :: mp) <+: u ∧ (root :: mp) <+: v := by
+  obtain ⟨is, his, h⟩ := SubScan.scanImports_subscan_lemma (root := root) hwf0 hmp hclear hwf hroot hport is0 h0
+  exact ⟨is, his, fun u v => h (u, v)⟩
+
+/-- … and a sub-scan without an answer means a whole-root scan without an answer -/
+theorem subscan_imports_none (h : scanImports root (toSEntries (exclOf mt o) base entries) mp = none) :
+    scanImports root (toSEntries (exclOf mt o) base entries) [] = none := by
+  cases h0 : scanImports root (toSEntries (exclOf mt o) base entries) [] with
+  | none => rfl
+  | some is0 =>
+    obtain ⟨is, his, -⟩ := SubScan.scanImports_subscan_lemma (root := root) hwf0 hmp hclear hwf hroot hport is0 h0
+    rw [h] at his; cases his
+
+variable (hxx : o.excludeExternal = true) (hlim : o.levelLimit = none) (hext : o.externalExclusions.isEmpty = true)
+  (hst : ∀ e ∈ entries, ∀ st ∈ e.stmts, stmtOK (toSStmt st) = true)
+include hxx hlim hext hst
+
+/-- C04, sub-directory scans, graph level (default options, any exclusion patterns): when the scan of the whole root
+    succeeds, so does the scan of `module_path`;
+    * its nodes are the whole-root nodes internal to `module_path` (`is_internal_module`) plus — unless `module_path`
+      itself is excluded — the ancestor packages `root`, `root.c₁`, … of `module_path`;
+    * its import pairs are the whole-root import pairs with both ends internal to `module_path`. -/
+theorem subscan_graph (g0 : PGraph Str) (h0 : generateGraph mt base root [] entries o = .ok g0) :
+    ∃ g, generateGraph mt base root mp entries o = .ok g ∧
+      (∀ s, s ∈ g.nodes ↔
+        (s ∈ g0.nodes ∧ isInternal s (internalPrefix root mp) = true) ∨
+        (exclOf mt o (pathStr base mp) = false ∧ ∃ k, 0 < k ∧ k ≤ mp.length ∧ s = render ((root :: mp).take k))) ∧
+      (∀ u v, (u, v) ∈ g.importPairs ↔
+        (u, v) ∈ g0.importPairs ∧ isInternal u (internalPrefix root mp) = true ∧
+          isInternal v (internalPrefix root mp) = true) :=
+  SubScan.subscan_graph_lemma hwf0 hwf hmp hroot hxx hlim hext hst hclear hport g0 h0
+
+end subscanImports
+
+/-! ### both spellings of an absolute import
+
+  `parentRelative root mp entries` (Bridge/SubScan.lean) is THE SAME tree with every absolute import of the files at
+  or below `mp` re-spelled relative to `mp`'s parent directory: the prefix `root.<mp's parent>` stripped from every
+  name that properly extends it (`import proj.a.x` ↦ `import a.x`, `from proj.a.s import u` ↦ `from a.s import u`
+  for `mp = a`). `plain` excludes the ambiguity the other way round (the stripped name is itself a module below
+  `module_path` while the name as written is not — again only with repeated directory names, `plain_needed`). -/
+
+section spellings
+variable (mt : Str → Str → Bool) (base root : Str) (mp : List Str) (entries : List Entry) (o : ScanOptions)
+
+/-- `_adjust_with_root_prefix`, specification level: the spelling relative to `module_path`'s parent resolves to the
+    fully qualified module when that is a module of the sub-scan -/
+theorem parent_relative_resolves_spec (inside : List Name) (pre r : Name) (h : inside.contains (pre ++ r) = true) :
+    targets.qualify inside (some pre) r = pre ++ r := by
+  rw [SubScan.qualify_some, if_pos h]
+
+/-- … in particular the stripped spelling of a module `n` of the sub-scan resolves back to `n` -/
+theorem strip_resolves (inside : List Name) (pre n : Name) (h : inside.contains n = true)
+    (hp : pre <+: n) (hl : pre.length < n.length) :
+    targets.qualify inside (some pre) (stripName (some pre) n) = n :=
+  SubScan.qualify_strip_module inside pre n h hp hl
+
+variable (hst : ∀ e ∈ entries, ∀ st ∈ e.stmts, stmtOK (toSStmt st) = true)
+  (hport : portable root (toSEntries (exclOf mt o) base entries) mp = true)
+  (hplain : plain root (toSEntries (exclOf mt o) base entries) mp = true)
+include hst hport hplain
+
+/-- C04, both spellings, specification level: the scan of `module_path` has an answer for the re-spelled tree iff it
+    has one for the tree as written, and then the same edges -/
+theorem parent_relative_spec :
+    (scanImports root (toSEntries (exclOf mt o) base (parentRelative root mp entries)) mp = none ↔
+      scanImports root (toSEntries (exclOf mt o) base entries) mp = none) ∧
+    ∀ is is', scanImports root (toSEntries (exclOf mt o) base entries) mp = some is →
+      scanImports root (toSEntries (exclOf mt o) base (parentRelative root mp entries)) mp = some is' →
+      ∀ u v, (u, v) ∈ is' ↔ (u, v) ∈ is := by
+  obtain ⟨h1, h2⟩ := SubScan.scanImports_respell_lemma (root := root) hst hport hplain
+  exact ⟨h1, fun is is' his his' u v => h2 is is' his his' (u, v)⟩
+
+variable (hwf : treeWFFor (exclOf mt o) base mp entries = true) (hmp : mpOK entries mp = true)
+  (hroot : compWF root = true)
+  (hxx : o.excludeExternal = true) (hlim : o.levelLimit = none) (hext : o.externalExclusions.isEmpty = true)
+include hwf hmp hroot hxx hlim hext
+
+/-- C04, both spellings, graph level: the scans of `module_path` of the two trees raise together (LookupError /
+    IndexError for a relative import above the root), and otherwise their graphs have the same nodes and the same
+    import pairs -/
+theorem parent_relative_graph :
+    (generateGraph mt base root mp (parentRelative root mp entries) o = .error .lookupError ↔
+      generateGraph mt base root mp entries o = .error .lookupError) ∧
+    ∀ g, generateGraph mt base root mp entries o = .ok g →
+      ∃ g', generateGraph mt base root mp (parentRelative root mp entries) o = .ok g' ∧
+        (∀ s, s ∈ g'.nodes ↔ s ∈ g.nodes) ∧ ∀ u v, (u, v) ∈ g'.importPairs ↔ (u, v) ∈ g.importPairs :=
+  SubScan.respell_graph_lemma hwf hmp hroot hxx hlim hext hst hport hplain
+
+/-- C04, "both resolve": the scan of `module_path` of the tree spelled relative to `module_path`'s parent against the
+    scan of the whole root of the tree spelled fully qualified — the restriction of the latter to the sub-tree, as
+    in `subscan_graph` -/
+theorem parent_relative_equiv (hwf0 : treeWFFor (exclOf mt o) base [] entries = true)
+    (hclear : ∀ k, k < mp.length → exclOf mt o (pathStr base (mp.take k)) = false)
+    (g0 : PGraph Str) (h0 : generateGraph mt base root [] entries o = .ok g0) :
+    ∃ g', generateGraph mt base root mp (parentRelative root mp entries) o = .ok g' ∧
+      (∀ s, s ∈ g'.nodes ↔
+        (s ∈ g0.nodes ∧ isInternal s (internalPrefix root mp) = true) ∨
+        (exclOf mt o (pathStr base mp) = false ∧ ∃ k, 0 < k ∧ k ≤ mp.length ∧ s = render ((root :: mp).take k))) ∧
+      (∀ u v, (u, v) ∈ g'.importPairs ↔
+        (u, v) ∈ g0.importPairs ∧ isInternal u (internalPrefix root mp) = true ∧
+          isInternal v (internalPrefix root mp) = true) :=
+  SubScan.parent_relative_lemma hwf0 hwf hmp hroot hxx hlim hext hst hclear hport hplain g0 h0
+
+end spellings
+
 /-! non-vacuity: a tree with a package, a sub-package, a non-`.py` file and an excluded directory -/
 def p (l : List String) : List Str := l.map String.toList
 def exEntries : List Entry :=
@@ -222,5 +368,140 @@ example : exOpts.excludeExternal = true ∧ exOpts.levelLimit = none := by decid
 example : ∀ k, k < (p ["a"]).length → exclOf noRe exOpts (pathStr "/r/proj".toList ((p ["a"]).take k)) = false := by decide
 example : (scanParsed noRe "/r/proj".toList "proj".toList (p ["a"]) exEntries exOpts).allModules =
     ["proj.a", "proj.a.__init__", "proj.a.x", "proj.a.s", "proj.a.s.t"].map String.toList := by decide
+
+/-! ### sub-directory scans, imports: a three-level tree, `module_path = a`
+
+  `proj/a/{__init__,x}.py`, `proj/a/s/{t,u}.py`, `proj/b/y.py`, an excluded `proj/cache/`. The files below `a` import
+  fully qualified (`import proj.a.s.t, proj.b.y, os`, `from proj.a.s import u, zz`, `import proj, proj.a`,
+  `from proj.a import x`) and relatively (`from .. import x`, `from ...b import y`, `from . import t`). -/
+
+def exSub : List Entry :=
+  [ { rel := p ["a"], isDir := true }, { rel := p ["a", "__init__.py"], isDir := false },
+    { rel := p ["a", "x.py"], isDir := false,
+      stmts := [.imp ["proj.a.s.t".toList, "proj.b.y".toList, "os".toList],
+                .impFrom (some "proj.a.s".toList) ["u".toList, "zz".toList] 0,
+                .imp ["proj".toList, "proj.a".toList]] },
+    { rel := p ["a", "s"], isDir := true },
+    { rel := p ["a", "s", "t.py"], isDir := false,
+      stmts := [.impFrom none ["x".toList] 2, .impFrom (some "b".toList) ["y".toList] 3,
+                .impFrom (some "proj.a".toList) ["x".toList] 0] },
+    { rel := p ["a", "s", "u.py"], isDir := false, stmts := [.impFrom none ["t".toList] 1] },
+    { rel := p ["b"], isDir := true }, { rel := p ["b", "y.py"], isDir := false, stmts := [.imp ["proj.a.x".toList]] },
+    { rel := p ["cache"], isDir := true }, { rel := p ["cache", "z.py"], isDir := false } ]
+
+/-- dotted pairs as component-list pairs / as raw-string pairs -/
+def q (l : List (String × String)) : List (Name × Name) := l.map fun e => (splitDots e.1.toList, splitDots e.2.toList)
+def qs (l : List (String × String)) : List (Str × Str) := l.map fun e => (e.1.toList, e.2.toList)
+
+set_option maxRecDepth 20000 in
+/-- the tree meets every hypothesis of `subscan_imports_spec`, `subscan_graph`, `parent_relative_spec`,
+    `parent_relative_graph` and `parent_relative_equiv` -/
+example : treeWFFor (exclOf noRe exOpts) "/r/proj".toList [] exSub = true ∧
+    treeWFFor (exclOf noRe exOpts) "/r/proj".toList (p ["a"]) exSub = true ∧ mpOK exSub (p ["a"]) = true ∧
+    compWF "proj".toList = true ∧
+    (∀ k, k < (p ["a"]).length → exclOf noRe exOpts (pathStr "/r/proj".toList ((p ["a"]).take k)) = false) ∧
+    portable "proj".toList (toSEntries (exclOf noRe exOpts) "/r/proj".toList exSub) (p ["a"]) = true ∧
+    plain "proj".toList (toSEntries (exclOf noRe exOpts) "/r/proj".toList exSub) (p ["a"]) = true ∧
+    exOpts.excludeExternal = true ∧ exOpts.levelLimit = none ∧ exOpts.externalExclusions.isEmpty = true ∧
+    (∀ e ∈ exSub, ∀ st ∈ e.stmts, stmtOK (toSStmt st) = true) := by decide
+
+/-- the re-spelled tree: `import a.s.t, b.y, os`, `from a.s import u, zz`, `import proj, a`, `from a import x`; the
+    relative imports and the file outside `a` unchanged -/
+example : (parentRelative "proj".toList (p ["a"]) exSub).map (·.stmts) =
+    [ [], [], [.imp ["a.s.t".toList, "b.y".toList, "os".toList], .impFrom (some "a.s".toList) ["u".toList, "zz".toList] 0,
+               .imp ["proj".toList, "a".toList]],
+      [], [.impFrom none ["x".toList] 2, .impFrom (some "b".toList) ["y".toList] 3, .impFrom (some "a".toList) ["x".toList] 0],
+      [.impFrom none ["t".toList] 1], [], [.imp ["proj.a.x".toList]], [], [] ] := by decide
+
+set_option maxRecDepth 20000 in
+/-- the specification's edges of the whole-root scan: 11, of which 7 have both ends at or below `proj.a` … -/
+example : scanImports "proj".toList (toSEntries (exclOf noRe exOpts) "/r/proj".toList exSub) [] =
+    some (q [("proj.a.x", "proj.a.s.t"), ("proj.a.x", "proj.b.y"), ("proj.a.x", "proj.a.s.u"), ("proj.a.x", "proj.a.s"),
+      ("proj.a.x", "proj"), ("proj.a.x", "proj.a"), ("proj.a.s.t", "proj.a.x"), ("proj.a.s.t", "proj.b.y"),
+      ("proj.a.s.t", "proj.a.x"), ("proj.a.s.u", "proj.a.s.t"), ("proj.b.y", "proj.a.x")]) := by decide
+set_option maxRecDepth 20000 in
+/-- … which are the edges of the scan of `a` … -/
+example : scanImports "proj".toList (toSEntries (exclOf noRe exOpts) "/r/proj".toList exSub) (p ["a"]) =
+    some (q [("proj.a.x", "proj.a.s.t"), ("proj.a.x", "proj.a.s.u"), ("proj.a.x", "proj.a.s"), ("proj.a.x", "proj.a"),
+      ("proj.a.s.t", "proj.a.x"), ("proj.a.s.t", "proj.a.x"), ("proj.a.s.u", "proj.a.s.t")]) := by decide
+set_option maxRecDepth 20000 in
+/-- … and of the scan of `a` of the re-spelled tree -/
+example : scanImports "proj".toList
+      (toSEntries (exclOf noRe exOpts) "/r/proj".toList (parentRelative "proj".toList (p ["a"]) exSub)) (p ["a"]) =
+    some (q [("proj.a.x", "proj.a.s.t"), ("proj.a.x", "proj.a.s.u"), ("proj.a.x", "proj.a.s"), ("proj.a.x", "proj.a"),
+      ("proj.a.s.t", "proj.a.x"), ("proj.a.s.t", "proj.a.x"), ("proj.a.s.u", "proj.a.s.t")]) := by decide
+
+set_option maxRecDepth 40000 in
+/-- the model's graphs: the whole root (9 nodes, 10 import pairs), … -/
+example : (generateGraph noRe "/r/proj".toList "proj".toList [] exSub exOpts).toOption.map (fun g => (g.nodes, g.importPairs)) =
+    some (["proj", "proj.a", "proj.a.__init__", "proj.a.x", "proj.a.s", "proj.a.s.t", "proj.a.s.u", "proj.b", "proj.b.y"].map
+        String.toList,
+      qs [("proj.a.x", "proj.a.s.t"), ("proj.a.x", "proj.b.y"), ("proj.a.x", "proj.a.s.u"), ("proj.a.x", "proj.a.s"),
+        ("proj.a.x", "proj"), ("proj.a.x", "proj.a"), ("proj.a.s.t", "proj.a.x"), ("proj.a.s.t", "proj.b.y"),
+        ("proj.a.s.u", "proj.a.s.t"), ("proj.b.y", "proj.a.x")]) := by decide
+set_option maxRecDepth 40000 in
+/-- … `module_path = a` (the 6 nodes internal to `proj.a` and the ancestor `proj`; the 6 pairs inside `proj.a`), … -/
+example : (generateGraph noRe "/r/proj".toList "proj".toList (p ["a"]) exSub exOpts).toOption.map
+      (fun g => (g.nodes, g.importPairs)) =
+    some (["proj.a", "proj", "proj.a.__init__", "proj.a.x", "proj.a.s", "proj.a.s.t", "proj.a.s.u"].map String.toList,
+      qs [("proj.a.x", "proj.a.s.t"), ("proj.a.x", "proj.a.s.u"), ("proj.a.x", "proj.a.s"), ("proj.a.x", "proj.a"),
+        ("proj.a.s.t", "proj.a.x"), ("proj.a.s.u", "proj.a.s.t")]) := by decide
+set_option maxRecDepth 40000 in
+/-- … and `module_path = a` of the re-spelled tree: the same graph -/
+example : (generateGraph noRe "/r/proj".toList "proj".toList (p ["a"]) (parentRelative "proj".toList (p ["a"]) exSub)
+      exOpts).toOption.map (fun g => (g.nodes, g.importPairs)) =
+    some (["proj.a", "proj", "proj.a.__init__", "proj.a.x", "proj.a.s", "proj.a.s.t", "proj.a.s.u"].map String.toList,
+      qs [("proj.a.x", "proj.a.s.t"), ("proj.a.x", "proj.a.s.u"), ("proj.a.x", "proj.a.s"), ("proj.a.x", "proj.a"),
+        ("proj.a.s.t", "proj.a.x"), ("proj.a.s.u", "proj.a.s.t")]) := by decide
+
+/-! ### the ambiguity: a directory `proj` inside the root directory `proj` -/
+
+def noEx : ScanOptions := { exclusions := .globs [] }
+
+/-- `proj/x.py`, `proj/proj/x.py`, and `proj/proj/y.py` with `import proj.x` -/
+def exAmb : List Entry :=
+  [ { rel := p ["proj"], isDir := true }, { rel := p ["proj", "x.py"], isDir := false },
+    { rel := p ["proj", "y.py"], isDir := false, stmts := [.imp ["proj.x".toList]] },
+    { rel := p ["x.py"], isDir := false } ]
+
+set_option maxRecDepth 20000 in
+/-- `portable` is needed. In a globally well-formed tree, `import proj.x` in `proj/proj/y.py` names the top-level
+    `proj.x` in the scan of the whole root and — read relative to `module_path`'s parent, which
+    `_adjust_with_root_prefix` tries first — `proj.proj.x` in the scan of `module_path = proj/proj`: the sub-scan has
+    an import edge the whole-root scan does not have, in the specification and in the model's graphs. All other
+    hypotheses of `subscan_imports_spec` / `subscan_graph` hold. -/
+theorem subscan_ambiguity :
+    treeWF exAmb = true ∧ mpOK exAmb (p ["proj"]) = true ∧ compWF "proj".toList = true ∧
+    (∀ e ∈ exAmb, ∀ st ∈ e.stmts, stmtOK (toSStmt st) = true) ∧
+    (∀ k, k < (p ["proj"]).length → exclOf noRe noEx (pathStr "/r/proj".toList ((p ["proj"]).take k)) = false) ∧
+    portable "proj".toList (toSEntries (exclOf noRe noEx) "/r/proj".toList exAmb) (p ["proj"]) = false ∧
+    scanImports "proj".toList (toSEntries (exclOf noRe noEx) "/r/proj".toList exAmb) [] =
+      some (q [("proj.proj.y", "proj.x")]) ∧
+    scanImports "proj".toList (toSEntries (exclOf noRe noEx) "/r/proj".toList exAmb) (p ["proj"]) =
+      some (q [("proj.proj.y", "proj.proj.x")]) ∧
+    (generateGraph noRe "/r/proj".toList "proj".toList [] exAmb noEx).toOption.map (·.importPairs) =
+      some (qs [("proj.proj.y", "proj.x")]) ∧
+    (generateGraph noRe "/r/proj".toList "proj".toList (p ["proj"]) exAmb noEx).toOption.map (·.importPairs) =
+      some (qs [("proj.proj.y", "proj.proj.x")]) := by
+  refine ⟨by decide, by decide, by decide, by decide, by decide, by decide, by decide, by decide, by decide, by decide⟩
+
+/-- `proj/proj/z.py`, and `proj/proj/y.py` with `import proj.proj.proj.z` (no such module) -/
+def exAmb2 : List Entry :=
+  [ { rel := p ["proj"], isDir := true }, { rel := p ["proj", "z.py"], isDir := false },
+    { rel := p ["proj", "y.py"], isDir := false, stmts := [.imp ["proj.proj.proj.z".toList]] } ]
+
+set_option maxRecDepth 20000 in
+/-- `plain` is needed for `parent_relative_spec`: `import proj.proj.proj.z` names no module; stripped of the prefix
+    `proj` it reads `import proj.proj.z`, which is a module of the sub-scan as it stands. The tree is portable. -/
+theorem plain_needed :
+    treeWF exAmb2 = true ∧ mpOK exAmb2 (p ["proj"]) = true ∧
+    (∀ e ∈ exAmb2, ∀ st ∈ e.stmts, stmtOK (toSStmt st) = true) ∧
+    portable "proj".toList (toSEntries (exclOf noRe noEx) "/r/proj".toList exAmb2) (p ["proj"]) = true ∧
+    plain "proj".toList (toSEntries (exclOf noRe noEx) "/r/proj".toList exAmb2) (p ["proj"]) = false ∧
+    scanImports "proj".toList (toSEntries (exclOf noRe noEx) "/r/proj".toList exAmb2) (p ["proj"]) = some [] ∧
+    scanImports "proj".toList
+        (toSEntries (exclOf noRe noEx) "/r/proj".toList (parentRelative "proj".toList (p ["proj"]) exAmb2)) (p ["proj"]) =
+      some (q [("proj.proj.y", "proj.proj.z")]) := by
+  refine ⟨by decide, by decide, by decide, by decide, by decide, by decide, by decide⟩
 
 end Pta.C04
